@@ -22,7 +22,65 @@ TOL = 1e-6
 ROUTES = ["ppc_flat", "ppc_results", "mpc_flat"]
 
 
+SHIFTER20 = dict(vn_hv_kv=20., vn_lv_kv=20., shift_degree=5., sn_mva=10., vk_percent=6., vkr_percent=0.5)     # ratio exactly 1
+SHIFTER110 = dict(vn_hv_kv=110., vn_lv_kv=110., shift_degree=5., sn_mva=100.)
+COST_BASES = {"R3c": "R3", "T3c": "T3"}       # the same nets with cost data: to_ppc converts them in 'opf' mode
+LIM = dict(min_p_mw=0., max_p_mw=3., min_q_mvar=-2., max_q_mvar=2.)
+
+
+def cost_menu(basename):
+    """opf-mode conversion (net has cost data): controllable elements become generator rows with their own VG.
+    A second ext_grid is left out: the opf-mode case has one reference bus by construction (the others become PV)."""
+    src = COST_BASES[basename]
+    b0, b1 = na.HOT[src][0], na.HOT[src][-1]
+    vs = 1.02
+    m = [["cgen", b0, 1.0, 1.01], ["cgen", b0, 0.5, 1.01], ["cgen", b1, 0.8, 0.99], ["cgen", 0, 0.4, vs],
+         ["csgen", b0, 0.5, 0.1], ["csgen", b1, 0.3, -0.1], ["csgen", 0, 0.2, 0.05], ["csgen", 1, 0.2, 0.],
+         ["cload", b0, 0.6, 0.2], ["load", b0, 1.5, 0.5, "P", 1., True], ["sgen", b0, 0.8, -0.2, 1., True],
+         ["shunt", b0, 0.1, -0.5, 1, 1.0, True], ["cgen", b0, 0.7, 1.01, False], ["csgen", b0, 0.4, 0.1, False], ["sn", 100.],
+         ["set", "switch", 0, "closed", False], ["set", "ext_grid", 0, "vm_pu", 1.03]]
+    if src == "T3":
+        m += [["set", "trafo", 0, "tap_pos", 2], ["set", "trafo", 0, "tap_side", "lv"]]
+    else:
+        m += [["set", "line", 1, "parallel", 2], ["set", "switch", 1, "closed", False]]
+    return m
+
+
+def apply_dev(net, d):
+    k = d[0]
+    if k == "cgen":
+        bus, p, vm = d[1:4]
+        pp.create_gen(net, bus, p, vm_pu=vm, controllable=True, in_service=d[4] if len(d) > 4 else True, **LIM)
+    elif k == "csgen":
+        bus, p, q = d[1:4]
+        pp.create_sgen(net, bus, p, q, controllable=True, in_service=d[4] if len(d) > 4 else True, **LIM)
+    elif k == "cload":
+        _, bus, p, q = d
+        pp.create_load(net, bus, p, q, controllable=True, **LIM)
+    else:
+        na.apply_dev(net, d)
+
+
+def build(case):
+    b = case["base"]
+    if b in COST_BASES:
+        net = na.base(COST_BASES[b])
+        net.bus["min_vm_pu"] = 0.9
+        net.bus["max_vm_pu"] = 1.1
+        if b == "R3c":
+            pp.create_poly_cost(net, 0, "ext_grid", 2.5)
+        else:
+            pp.create_pwl_cost(net, 0, "ext_grid", [[-10., 0., 1.], [0., 10., 2.]])
+    else:
+        net = na.base(b)
+    for d in case.get("devs", ()):
+        apply_dev(net, d)
+    return net
+
+
 def menu(basename):
+    if basename in COST_BASES:
+        return cost_menu(basename)
     hot = na.HOT[basename]
     s = 20. if basename == "M4" else 1.
     b0 = hot[0]
@@ -43,7 +101,7 @@ def menu(basename):
           ["gen", b0, 0.5 * s, 1.01, "none", False, True],            # second gen, same set point as the first
           ["gen", b0, 0.6 * s, 1.0, "wide", False, False],            # out of service gen
           ["gen", b0, -0.3 * s, 1.01, "wide", False, True],           # negative p gen
-          ["gen", 0, 0.4 * s, {"R3": 1.02, "M4": 1.01, "T3": 1.02}[basename], "wide", False, True],   # gen at the slack bus
+          ["gen", 0, 0.4 * s, {"R3": 1.02, "M4": 1.01, "T3": 1.02, "W3": 1.02}[basename], "wide", False, True],   # gen at the slack bus
           ["shunt", b0, 0.05 * s, 0.3 * s, 2, 0.9, True],             # step 2, vn_kv != bus vn
           ["shunt", b0, 0.1 * s, 0.2 * s, 1, 1.0, False],
           ["ext_grid", b0, 1.0, 0., True],
@@ -51,6 +109,7 @@ def menu(basename):
           ["ext_grid", b0, 1.01, 1.0, False],
           ["sn", 100.]]
     if basename == "R3":
+        m += [["trafo", 1, 2, dict(SHIFTER20)], ["trafo", 1, 2, dict(SHIFTER20, tap_pos=1)], ["trafo", 1, 2, dict(SHIFTER20, shift_degree=0.)]]
         m += [["set", "switch", 0, "closed", False], ["set", "switch", 0, "z_ohm", 0.5],
               ["set", "switch", 1, "closed", False], ["switch", 2, 1, "l", False, 0.], ["switch", 1, 0, "l", True, 0.],
               ["set", "line", 1, "in_service", False], ["set", "line", 1, "parallel", 2], ["set", "line", 0, "parallel", 3],
@@ -59,11 +118,25 @@ def menu(basename):
               ["swapline", 1], ["bus", 2, True], ["bus", 1, False],
               ["set", "line", 0, "g_us_per_km", 5.], ["set", "line", 1, "df", 0.5], ["set", "line", 0, "length_km", 0.4]]
     elif basename == "M4":
+        m += [["trafo", 1, 3, dict(SHIFTER110)], ["trafo", 1, 3, dict(SHIFTER110, shift_degree=-5., tap_pos=-2)]]
         m += [["set", "switch", 0, "closed", False], ["set", "line", 0, "in_service", False], ["set", "line", 4, "in_service", False],
               ["set", "line", 2, "parallel", 2], ["set", "bus", 3, "in_service", False], ["line", 0, 2, 1, True],
               ["line", 1, 3, 1, False], ["impedance", 1, 3, False], ["swapline", 1], ["bus", 2, True], ["switch", 2, 1, "l", False, 0.],
               ["set", "line", 4, "g_us_per_km", 2.], ["set", "ext_grid", 0, "va_degree", 5.]]
+    elif basename == "W3":
+        m += [["set", "switch", 0, "closed", False], ["switch", 0, 0, "t3", False, 0.], ["switch", 2, 0, "t3", False, 0.],
+              ["set", "trafo3w", 0, "tap_pos", 2], ["set", "trafo3w", 0, "tap_pos", -3],
+              ["set", "trafo3w", 0, "tap_side", "mv"], ["set", "trafo3w", 0, "tap_side", "lv"], ["set", "trafo3w", 0, "tap_at_star_point", True],
+              ["set", "trafo3w", 0, "shift_mv_degree", 30.], ["set", "trafo3w", 0, "shift_lv_degree", 150.],
+              ["set", "trafo3w", 0, "vk_mv_percent", 25.],      # negative reactance of the hv star leg
+              ["set", "trafo3w", 0, "vk_hv_percent", 30.],      # negative reactance of the lv star leg
+              ["set", "trafo3w", 0, "vk_lv_percent", 30.],      # negative reactance of the mv star leg
+              ["set", "trafo3w", 0, "vkr_mv_percent", 2.], ["set", "trafo3w", 0, "pfe_kw", 0.], ["set", "trafo3w", 0, "tap_neutral", 1],
+              ["set", "trafo3w", 0, "tap_step_degree", 10.], ["set", "trafo3w", 0, "tap_changer_type", "Ideal"],
+              ["set", "trafo3w", 0, "in_service", False], ["set", "bus", 2, "in_service", False], ["set", "line", 0, "in_service", False],
+              ["set", "ext_grid", 0, "va_degree", 5.]]
     elif basename == "T3":
+        m += [["trafo", 1, 2, dict(SHIFTER20)]]
         m += [["set", "switch", 0, "closed", False], ["set", "switch", 0, "z_ohm", 0.5],
               ["set", "switch", 1, "closed", False], ["switch", 1, 0, "t", False, 0.], ["switch", 2, 0, "l", False, 0.],
               ["set", "trafo", 0, "tap_pos", 2], ["set", "trafo", 0, "tap_pos", -3], ["set", "trafo", 0, "tap_pos", 9],
@@ -82,6 +155,8 @@ def menu(basename):
 
 def reduced_menu(basename):
     """sub-menu for the k=2 product of the quick tier: one specimen per mechanism"""
+    if basename in COST_BASES:
+        return menu(basename)
     b0 = na.HOT[basename][0]
     drop_struct = {"R3": [["set", "line", 0, "parallel", 3], ["line", 0, 2, 2, True], ["set", "line", 0, "length_km", 0.4], ["bus", 1, False],
                           ["switch", 1, 0, "l", True, 0.]],
@@ -89,7 +164,12 @@ def reduced_menu(basename):
                           ["set", "trafo", 0, "tap_step_percent", 0.], ["set", "trafo", 0, "tap_pos", 9],
                           ["set", "trafo", 0, "shift_degree", 30.], ["set", "trafo", 0, "vn_hv_kv", 115.],
                           ["trafo", 0, 1, {"in_service": False}], ["set", "line", 0, "parallel", 2], ["set", "trafo", 0, "i0_percent", 0.],
-                          ["set", "switch", 0, "z_ohm", 0.5]]}.get(basename, [])
+                          ["set", "switch", 0, "z_ohm", 0.5]],
+                   "W3": [["set", "trafo3w", 0, "vkr_mv_percent", 2.], ["set", "trafo3w", 0, "pfe_kw", 0.], ["set", "trafo3w", 0, "tap_neutral", 1],
+                          ["set", "trafo3w", 0, "tap_step_degree", 10.], ["set", "bus", 2, "in_service", False],
+                          ["set", "line", 0, "in_service", False], ["switch", 2, 0, "t3", False, 0.], ["set", "ext_grid", 0, "va_degree", 5.],
+                          ["sn", 100.]]}.get(basename, [])
+    few_bus_elements = basename == "W3"
     out = []
     n_kind = {}
     for d in menu(basename):
@@ -100,7 +180,7 @@ def reduced_menu(basename):
             # first specimen + the out-of-service / sign / slack-bus variants
             keep = n_kind[d[0]] == 1 or d[-1] is False or (d[0] == "load" and d[2] < 0) or (d[0] == "gen" and (d[1] == 0 or d[4] == "tight")) \
                 or (d[0] == "shunt" and d[5] == 2) or (d[0] == "ext_grid" and d[3] != 0. and d[-1])
-            if not keep:
+            if not keep or (few_bus_elements and not (n_kind[d[0]] == 1 and d[0] in ("load", "gen", "shunt"))):
                 continue
         elif d in drop_struct:
             continue
@@ -194,7 +274,7 @@ def compare(orig, conv, look, nb):
     if not has_z_switch:
         def pl(n):
             t = 0.
-            for tab in ("line", "trafo", "impedance"):
+            for tab in ("line", "trafo", "trafo3w", "impedance"):
                 r = n.get("res_" + tab)
                 if r is not None and len(r):
                     t += float(np.nansum(r.pl_mw.values))
